@@ -242,7 +242,9 @@ Definition adv_in (c : cfg) (m : obs) (cid : nat) (pdu : list N) (n : N) (resp :
       let k := oc_at m cid in
       let m1 := forget_all_values m in
       if o_prep k then
-        set_cb (set_oc m1 cid (mkOC (o_mtu k) (o_enc k) (o_cccd k) (o_since k) false (o_pend k) (o_must k) (o_out k) (o_slack k))) None
+        (* prepared CCCD writes may have been executed: nothing is known about this connection's CCCDs any more *)
+        set_cb (set_oc m1 cid (mkOC (o_mtu k) (o_enc k) (map (fun _ => None) (o_cccd k)) (o_since k) false (o_pend k)
+                                   (map (fun _ => (false, false)) (o_must k)) (o_out k) (o_slack k + count_must (o_must k)))) None
       else m1
   | opc :: lo :: hi :: data =>
       if (opc =? 18) || (opc =? 82) || (opc =? 22) then adv_write m cid opc (lo + 256 * hi) data resp else m
